@@ -305,6 +305,30 @@ def run(ctx):
                 res.violation("I2-STEP", Q["Vertex(universes=)"], "one-list-object-passed-to-two-constructors", f"src = [u]; n1 = {cls_}(universes=src); n2 = {cls_}(universes=src); {call} -> {out!r}; afterwards n2.universes reads "
                               f"{names(got.value) if got.kind == 'return' else got!r} and u.vertices {names(p.O['u'].fields['_vertices'])}: n2 is a member of u only and was not touched",
                               replay=f"from edgegraph.structure import *\nu, u2 = Universe(), Universe()\nsrc = [u]\nn1 = {cls_}(universes=src); n2 = {cls_}(universes=src)\n{call}\nprint(n2.universes == [u], n2 in u.vertices, n2 in u2.vertices)")
+    # a user universe class whose add_vertex calls back into the library (the admitted vertex leaves a rival universe) among the
+    # universes= of a constructor: whatever the final memberships are, they are symmetric and duplicate-free
+    for order in (("u", "k", "u2"), ("k", "u", "u2"), ("u", "u2", "k")):
+        try:
+            p = Pre(h, "Vertex", (), False, segs=False)
+            k_ = h.new("KickUni", "k")
+            k_.fields["rival"] = p.O["u"]
+            objs = {"u": p.O["u"], "u2": p.O["u2"], "k": k_}
+            out = h.call(h.cls("Vertex"), universes=Seq([objs[r] for r in order], "list"))
+            if out.kind != "return":
+                raise Unknown(f"constructor gives {out!r}")
+            out.value.name = "n"
+            st = {"members": {r: names(h.getattr(o, "vertices").value) for r, o in objs.items()}, "universes": {"n": names(h.getattr(out.value, "universes").value)}}
+            bad = i2_violations(st)
+        except Unknown as u:
+            res.ob(False)
+            res.undecide(f"Vertex(universes={order}) with a re-entrant universe class: {u}")
+            continue
+        m += 1
+        res.ob(not bad, sig=("reentrant-universe-class", order))
+        if bad:
+            res.violation("I2-STEP", Q["Vertex(universes=)"], "universe-subclass-calling-back-from-add_vertex", f"Vertex(universes={list(order)}) where k is a Universe subclass whose add_vertex makes the vertex leave u: I2 broken: {'; '.join(bad[:3])}",
+                          replay="from edgegraph.structure import *\nclass K(Universe):\n    rival = None\n    def add_vertex(self, v):\n        super().add_vertex(v)\n        if self.rival in v.universes: v.remove_from_universe(self.rival)\n"
+                                 "u, u2, k = Universe(), Universe(), K(); k.rival = u\nn = Vertex(universes=[u, k, u2])\nprint(n.universes, [n in x.vertices for x in (u, k, u2)])")
     res.rule("I2-CONSTRUCT", m)
     from rules import hist
     hist.run(ctx, res, 'C02')       # composition: histories through the public API against the reference model (rules/hist.py)
